@@ -462,21 +462,48 @@ def run(chk):
              "the expanded product of the bond operators is the term table with its coefficients; quantum numbers attached to the bond operators are those of their strings", 12)
     DR.chain_builder_rule(chk, src, "builder-exact")
     DR.one_term_rule(chk, src, "builder-exact")
+    chk.rule("term-validation", "Model.check_operator_terms (abstract run, shared with C15): every term with a non-zero factor - however small - reaches the table; sums are flattened in order", 2)
+    from .C15 import term_validation_rule
+    term_validation_rule(chk, src)
     chk.rule("split-order", "Op.split_elementary keeps intra-site symbol order, sites ascending; duplicates merged by summing factors", 4)
     chk.rule("term-table", "_terms_to_table: row i and coefficient i are those of term i; constant last, only when non-zero (abstract run on terms with equal operator strings)", 1)
     s = sp.Symbol("s")
-    # ---- offset
+    # ---- offset: abstract run of Mpo.__init__ up to the call of _terms_to_table (a recorder bound to that function's own signature)
     init = src.func(MPO, "Mpo.__init__")
-    st = [n for n in ast.walk(init.node) if isinstance(n, ast.Assign) and unparse(n.targets[0]) == "self.offset"]
-    ok = len(st) == 1 and unparse(st[0].value).replace(" ", "") == "offset.as_au()"
-    chk.ob("offset-sign", "Mpo.__init__: self.offset = offset.as_au()", ok, init.where, [unparse(x.value) for x in st], "offset.as_au()", line=init.node.lineno)
-    call = [c for c in ast.walk(init.node) if isinstance(c, ast.Call) and unparse(c.func) == "_terms_to_table"]
-    if len(call) != 1 or len(call[0].args) < 3:
-        raise AnalysisError(f"{init.where}: _terms_to_table(model, terms, const) call not found")
-    t = unparse(call[0].args[2]).replace("self.offset", "OFFSET")
-    v = C09.scalar_sym(ast.parse(t, mode="eval").body, {"OFFSET": s})
-    chk.ob("offset-sign", "Mpo.__init__ passes -offset as the constant", sp.simplify(v + s) == 0, init.where, str(v).replace("s", "offset"), "-offset", line=call[0].lineno,
-           detail="the operator must be sum_k c_k O_k MINUS the offset; the sign only matters for non-zero offsets")
+    from ..syminterp import SymInterp as _SI, Sym as _Sym, Blob as _Blob
+    from .chain_rules import class_resolver as _resolver
+    s_au, s_val = sp.Symbol("offset_in_atomic_units"), sp.Symbol("offset_bare_number")
+
+    class _Stop(Exception):
+        pass
+    ttt = src.func(SYM, "_terms_to_table")
+    seen = {}
+
+    def _rec(*a_, **k_):
+        ps = ttt.params()
+        bound = {ps[i]: v for i, v in enumerate(a_) if i < len(ps)}
+        bound.update(k_)
+        seen.update(bound)
+        raise _Stop()
+    quantity = _Sym("Quantity")
+    off = _Sym("offset", as_au=lambda: s_au, value=s_val, unit="some unit")
+    terms_in = [_Sym("term0"), _Sym("term1")]
+    model = _Sym("model", ham_terms=terms_in, check_operator_terms=lambda t_: list(t_), basis=[], nsite=0)
+    me = _Sym("mpo", _cls="Mpo")
+    it0 = _SI(src, _resolver(src, {"Mpo": MPO}), {"_terms_to_table": _rec, "Quantity": quantity, "isinstance": lambda x, t_: (x is off) if t_ is quantity else (isinstance(x, t_) if isinstance(t_, type) else False),
+                                                "super": lambda *a_: _Sym("super", __init__=lambda *a2, **k2: None), "logger": _Blob("logger"), "Op": _Sym("Op"), "Mpo": _Sym("Mpo")})
+    try:
+        it0.call_function(init, [me, model, None, off])
+        raise AnalysisError(f"{init.where}: Mpo.__init__ finished without calling _terms_to_table")
+    except _Stop:
+        pass
+    const_name = ttt.params()[2] if len(ttt.params()) > 2 else None
+    v = seen.get(const_name)
+    stored = getattr(me, "offset", None)
+    chk.ob("offset-sign", "Mpo.__init__: self.offset = offset.as_au()", stored == s_au, init.where, str(stored), "the offset in atomic units", line=init.node.lineno,
+           detail="the requested offset is a quantity with a unit: the stored offset and the constant of the table are its value in atomic units, whatever unit it was given in")
+    chk.ob("offset-sign", "Mpo.__init__ passes -offset as the constant", v is not None and sp.simplify(sp.sympify(v) + s_au) == 0, init.where, str(v), "-(offset in atomic units)", line=init.node.lineno,
+           detail="the operator must be sum_k c_k O_k MINUS the offset; the sign only matters for non-zero offsets, the unit only for offsets not given in atomic units")
     # that the constant is appended unchanged, last, on an all-identity row and only when non-zero is decided by the abstract run of _terms_to_table (term-table)
     # ---- dispatch
     one = src.func(SYM, "_construct_symbolic_mpo_one_site")
